@@ -20,7 +20,7 @@ META = {
             "Non-trivial = every history; distinct = hash of the operation "
             "list.",
     "reach": {"oracle_comparisons": 100000, "nonempty_expectations": 10000,
-              "store_mirror_checks": 20000, "op:ex_assign": 200,
+              "store_mirror_checks": 5000, "op:ex_assign": 200,
               "op:ex_assign_other": 100, "op:ex_update": 200,
               "op:ex_popitem": 50, "op:ex_setdefault": 200,
               "edit_then_lookup:iv_addr": 200},
